@@ -92,13 +92,13 @@ class Ctx:
                                  (module, cfg, p.returncode, r['violated'], out[-3000:]))
         return r
 
-    def tlc_vectors(self, module, cfg, out='vectors.ndjson', timeout=900, workers=int(os.environ.get('VERIF_TLC_WORKERS', '4')), cfgtext=None, sample=2):
+    def tlc_vectors(self, module, cfg, out='vectors.ndjson', timeout=900, workers=int(os.environ.get('VERIF_TLC_WORKERS', '4')), cfgtext=None, sample=2, java_opts=None):
         """Vector mode: every (initial) state of the module is one vector; TLC checks the module's
         invariants on each and dumps them; they are rewritten as ndjson for the harness. Returns the count."""
         from tools import tlaval
         d = self.spec_dir()
         dump = os.path.join(d, 'vec_%s' % re.sub(r'\W', '_', cfg))
-        self.tlc(module, cfg, args=['-dump', dump], timeout=timeout, workers=workers, cfgtext=cfgtext)
+        self.tlc(module, cfg, args=['-dump', dump], timeout=timeout, workers=workers, cfgtext=cfgtext, java_opts=java_opts)
         path = dump + '.dump' if os.path.exists(dump + '.dump') else dump
         states = tlaval.parse_states_file(path)
         os.remove(path)
@@ -186,6 +186,9 @@ class Ctx:
             raise MachineryError('harness %s %s produced no result (rc=%d):\n%s' % (pkg, run, p.returncode, p.stdout[-4000:]))
         if 'no tests to run' in p.stdout:
             raise MachineryError('harness test %s not found in %s' % (run, pkg))
+        if p.returncode != 0:
+            self.save('gotest_%s.out' % name, p.stdout)
+            raise MachineryError('harness %s %s failed (rc=%d) although it wrote a result:\n%s' % (pkg, run, p.returncode, p.stdout[-3000:]))
         res['_stdout'] = p.stdout
         res['_outdir'] = outdir
         res['_rc'] = p.returncode
@@ -243,7 +246,8 @@ class Ctx:
             fails.append({'trace_len': len(tr), 'lineno_in_trace': at, 'line': json.loads(tr[at]),
                           'violated': r['violated'],
                           'context': [json.loads(x) for x in tr[max(0, at - 6):at]],
-                          'trace': [json.loads(x) for x in tr[:at + 1]] if at < 400 else None})
+                          'trace': [json.loads(x) for x in tr[:at + 1]] if at < 400 else None,
+                          'full': [json.loads(x) for x in tr] if len(tr) < 2000 else None})
             del traces[k]
             if len(fails) >= max_fail:
                 break
@@ -305,7 +309,13 @@ def write_evidence(ctx, mod, nviol, note=None):
           'assumptions': list(getattr(mod, 'ASSUMPTIONS', [])) + ctx.assumptions,
           'wall_s': round(time.time() - ctx.t0, 2), 'violations': nviol}
     os.makedirs(os.path.join(ROOT, 'evidence'), exist_ok=True)
-    with open(os.path.join(ROOT, 'evidence', ctx.pid + '.json'), 'w') as f:
+    path = os.path.join(ROOT, 'evidence', ctx.pid + '.json')
+    if os.path.realpath(REPO) != '/repo':
+        # a run against a scratch worktree must not replace the evidence of /repo
+        ev['coverage']['repo'] = REPO
+        os.makedirs(os.path.join(ROOT, 'replays'), exist_ok=True)
+        path = os.path.join(ROOT, 'replays', 'evidence_%s_scratch.json' % ctx.pid)
+    with open(path, 'w') as f:
         json.dump(ev, f, indent=1, default=str)
 
 
